@@ -280,7 +280,15 @@ func (g *exprGen) arg(fn string, i int, d int) string {
 		}
 	case fn == "has_group" && i == 0, fn == "has_category" && i == 0, fn == "has_intent" && i == 0, fn == "has_top_intent" && i == 0:
 		if g.r.Chance(0.7) {
-			return fw.Pick(g.r, []string{"contact.groups", "results.q1", "obj", "contact", "results.intent"})
+			return fw.Pick(g.r, []string{"contact.groups", "results.q1", "obj", "contact", "results.intent", "results.intent", "results.intent"})
+		}
+	case (fn == "has_intent" || fn == "has_top_intent") && i == 1:
+		if g.r.Chance(0.8) {
+			return strconv.Quote(fw.Pick(g.r, ClassificationNames))
+		}
+	case (fn == "has_intent" || fn == "has_top_intent") && i == 2:
+		if g.r.Chance(0.8) {
+			return fw.Pick(g.r, []string{"0", "0.1", "0.4", "0.9", "1", "-1"})
 		}
 	case fn == "keys" || fn == "json" || fn == "count":
 		if g.r.Chance(0.5) {
